@@ -104,10 +104,11 @@ CLAIMS = {
         text="Theorems (props/C13.v): every message out of the tokenizer has a non-empty, blank-free command and middle parameters not starting with ':'; serialising such a message with a source "
              "and tokenising the result gives back exactly source, command and parameters, for every trailing text (C13_serialise_parse, C13_relay_reparses); a verb outside the table is answered 421 "
              "with the upper-cased name, a known verb with fewer parameters than its arity 461, and with enough parameters the line is executed as exactly that verb or answered with a "
-             "parameter-specific error - never 421/461 (all 41 verbs, every arity); an unparsable line changes nothing and an empty line is ignored. The LinesCodec framing (several lines per "
-             "segment, split lines, the limit and 417), CRLF termination, blank runs of any kind and the format!-built relays (PART, KICK, 301) are decided per run on the real server (L2).",
+             "parameter-specific error - never 421/461 (all 41 verbs, every arity); an unparsable line changes nothing and an empty line is ignored; the framing model (split at LF, strip CR, 2000-byte limit) yields the same "
+             "frames however the byte stream is cut into segments, and an over-long line is reported as such, never executed (C13_segmentation_invariant, C13_overlong_not_executed). CRLF termination, "
+             "blank runs of any kind against the grammar and the format!-built relays (PART, KICK, 301) are decided per run on the real server (L2); the framing model is the one the extracted program runs against the real LinesCodec.",
         design_ref="5 (C13)",
-        note="Partial at proof level: framing and CRLF are checked by oracles, not proved; the python grammar oracle is part of the check's trusted base."),
+        note="Partial at proof level: CRLF emission and arbitrary blank runs are checked by oracles, not proved; the python grammar oracle is part of the check's trusted base."),
     "C20": dict(
         technique="Coq proof (the validation model accepts exactly the conjunction the statement lists; shape of a well-formed hash; configured channels and default user modes in the state model) + differential validation of generated configuration files and command lines, and start-up / -g / plain-vs-TLS runs of the real binary",
         text="Theorems (props/C20.v): config_accept holds iff the TLS certificate and key options come together, the effective (command-line overridden) server name contains a dot, every password "
